@@ -47,23 +47,23 @@ Definition process_sync (c : cfg) (p : bool) (x : party) (last_was_revoke : bool
   let local_tail_h := c_h (lTail x) in
   let remote_tail_h := c_h (rTail x) in
   let remote_tip_h := c_h (tip_of (rTail x) (rTip x)) in   (* captured BEFORE any re-sign *)
-  (* ladder 1: do we owe a revocation? *)
-  let l1 : option (party * list msg * bool) :=
-    if local_tail_h <? rtail then None
-    else if rtail + 1 <? local_tail_h then None
-    else if rtail =? local_tail_h then Some (x, [], false)
+  (* ladder 1: do we owe a revocation?  inl = continue, inr = error class *)
+  let l1 : (party * list msg * bool) + sres :=
+    if local_tail_h <? rtail then inr SErrSync
+    else if rtail + 1 <? local_tail_h then inr SErrSync
+    else if rtail =? local_tail_h then inl (x, [], false)
     else (* rtail + 1 = local_tail_h *)
       if owes_commit p x then
         match do_sign c p x with
-        | (Ok, x', Some m) => Some (x', [MRev; m], true)
-        | (ErrNoWindow, _, _) => Some (x, [MRev], false)
-        | _ => None
+        | (Ok, x', Some m) => inl (x', [MRev; m], true)
+        | (ErrNoWindow, _, _) => inl (x, [MRev], false)
+        | _ => inr SErrSign   (* SignNextCommitment's own error is returned as is *)
         end
-      else Some (x, [MRev], false)
+      else inl (x, [MRev], false)
   in
   match l1 with
-  | None => (SErrSync, x, [], false)
-  | Some (x1, ups, signed) =>
+  | inr e => (e, x, [], false)
+  | inl (x1, ups, signed) =>
     (* ladder 2: do we owe a commitment? *)
     if remote_tip_h + 1 <? next then (SErrSync, x, [], false)
     else if next <=? remote_tail_h then (SErrSync, x, [], false)
@@ -117,7 +117,8 @@ Definition xstep (c : cfg) (s : xsys) (o : xop) : res * xsys :=
     | SOk, SOk =>
       (Ok, mkX (mkSys a' b' outA outB)
                (if sa then false else lwrA s) (if sb then false else lwrB s))
-    | _, _ => (ErrSync, mkX (mkSys a b [] []) (lwrA s) (lwrB s))
+    | SErrSync, _ | _, SErrSync => (ErrSync, mkX (mkSys a b [] []) (lwrA s) (lwrB s))
+    | _, _ => (ErrSanity, mkX (mkSys a b [] []) (lwrA s) (lwrB s))
     end
   end.
 
